@@ -2,6 +2,7 @@ package sym
 
 import (
 	"fmt"
+	"strings"
 
 	"golang.org/x/tools/go/ssa"
 )
@@ -128,6 +129,7 @@ func (m *Machine) splitFork(s, sep *Term, limit int) []*Term {
 
 type readerState struct {
 	rest *Term
+	size int // bufio buffer size (ReadLine returns at most this many bytes per call)
 }
 
 func (m *Machine) readerKey(v Value) string {
@@ -135,7 +137,7 @@ func (m *Machine) readerKey(v Value) string {
 	if !ok || p.O == nil {
 		panic(m.unsupported("reader handle is %T", v))
 	}
-	return fmt.Sprintf("reader:%d", p.O.ID)
+	return fmt.Sprintf("reader:%d:%v", p.O.ID, p.Path)
 }
 
 // readerSource extracts the remaining data of an io.Reader the engine knows about.
@@ -147,7 +149,7 @@ func (m *Machine) readerSource(v Value) (*Term, func(*Term)) {
 	if !ok || p.O == nil {
 		panic(m.unsupported("io.Reader of unknown kind %T", v))
 	}
-	key := fmt.Sprintf("reader:%d", p.O.ID)
+	key := fmt.Sprintf("reader:%d:%v", p.O.ID, p.Path)
 	if st, ok := m.side[key]; ok {
 		rs := st.(*readerState)
 		return rs.rest, func(t *Term) { rs.rest = t }
@@ -168,7 +170,7 @@ func (m *Machine) readerSource(v Value) (*Term, func(*Term)) {
 
 func (m *Machine) newReaderObj(data *Term, name string) Ptr {
 	o := m.newObj(&StructV{F: []Value{}}, name)
-	m.side[fmt.Sprintf("reader:%d", o.ID)] = &readerState{rest: data}
+	m.side[fmt.Sprintf("reader:%d:%v", o.ID, []int(nil))] = &readerState{rest: data, size: 4096}
 	return Ptr{O: o}
 }
 
@@ -373,8 +375,16 @@ func init() {
 			m.assume(App("uf.b64ok", SBool, e))
 			m.assume(Eq(App("uf.b64dec", SString, e), x))
 			m.assume(Eq(Eq(e, StrC("")), Eq(x, StrC(""))))
+			// padded base64: 4 characters per started group of 3 bytes
+			m.assume(mk("=", SBool, strLenInt(e), mk("*", SInt, IntC(4), mk("div", SInt, intAdd(strLenInt(x), IntC(2)), IntC(3)))))
 		}
 		m.markCharFree(e, "\n\r")
+		if n, known := m.lenKnown(x); known {
+			if m.klen == nil {
+				m.klen = map[*Term]int{}
+			}
+			m.klen[e] = 4 * ((n + 2) / 3) // implied by the length axiom above
+		}
 		return e
 	})
 	add("(*encoding/base64.Encoding).DecodeString", func(m *Machine, _ *Thread, _ *Frame, a []Value, _ ssa.Value) Value {
@@ -472,6 +482,17 @@ func init() {
 		set(m.strLit(""))
 		return m.newReaderObj(data, "bufio.Reader")
 	})
+	add("bufio.NewReaderSize", func(m *Machine, _ *Thread, _ *Frame, a []Value, _ ssa.Value) Value {
+		data, set := m.readerSource(a[0])
+		set(m.strLit(""))
+		n := m.concInt("bufio.size", a[1])
+		if n < 16 {
+			n = 16 // bufio's minimum
+		}
+		p := m.newReaderObj(data, "bufio.Reader")
+		m.side[m.readerKey(p)].(*readerState).size = n
+		return p
+	})
 	add("(*bufio.Reader).ReadLine", func(m *Machine, _ *Thread, _ *Frame, a []Value, _ ssa.Value) Value {
 		rs := m.side[m.readerKey(a[0])].(*readerState)
 		rest := m.needString(rs.rest, "ReadLine")
@@ -485,9 +506,38 @@ func init() {
 			return TupleV{ByteSlice{Nil: true, T: m.strLit("")}, False, m.errSentinelByName("io.EOF")}
 		}
 		nl := StrC("\n")
+		size := rs.size
+		// prefixChunk: no newline within the first `size` bytes and at least `size` bytes buffered:
+		// ReadLine hands out the full buffer with isPrefix = true (a trailing \r is held back).
+		prefixChunk := func() Value {
+			chunk := mk("str.substr", SString, rest, IntC(0), IntC(int64(size)))
+			if m.branch("readline.prefix.cr", strSuffixOf(StrC("\r"), chunk)) {
+				chunk = mk("str.substr", SString, rest, IntC(0), IntC(int64(size-1)))
+				rs.rest = mk("str.substr", SString, rest, IntC(int64(size-1)), intSub(strLenInt(rest), IntC(int64(size-1))))
+			} else {
+				rs.rest = mk("str.substr", SString, rest, IntC(int64(size)), intSub(strLenInt(rest), IntC(int64(size))))
+			}
+			return TupleV{ByteSlice{T: chunk}, True, IfaceV{}}
+		}
 		if before, after, ok := m.cutAtByte(rest, '\n'); ok {
-			// the first newline is syntactically determined; only the buffer bound needs the solver
-			if m.branch("readline.inbuf", intLE(strLenInt(before), IntC(4095))) {
+			// the first newline is syntactically determined; the buffer bound is decided from known
+			// lengths when possible, by the solver otherwise
+			var inbuf bool
+			if bl, known := m.lenKnown(before); known {
+				inbuf = bl <= size-1
+				if !inbuf {
+					if head, tail, ok2 := m.splitAt(rest, size); ok2 {
+						if ends, k2 := m.endsWithKnown(head, '\r'); k2 && !ends {
+							rs.rest = tail
+							return TupleV{ByteSlice{T: head}, True, IfaceV{}}
+						}
+					}
+					return prefixChunk()
+				}
+			} else {
+				inbuf = m.branch("readline.inbuf", intLE(strLenInt(before), IntC(int64(size-1))))
+			}
+			if inbuf {
 				rs.rest = after
 				line := before
 				if ends, known := m.endsWithKnown(before, '\r'); known {
@@ -502,11 +552,11 @@ func init() {
 				}
 				return TupleV{ByteSlice{T: line}, False, IfaceV{}}
 			}
-			panic(pathEnd{kind: "cut", msg: "bufio.ReadLine: line longer than the 4096-byte buffer (isPrefix case outside the stated bound)"})
+			return prefixChunk()
 		}
 		idx := mk("str.indexof", SInt, rest, nl, IntC(0))
 		found := strContains(rest, nl)
-		inBuf := And(found, intLE(idx, IntC(4095)))
+		inBuf := And(found, intLE(idx, IntC(int64(size-1))))
 		if m.branch("readline.found", inBuf) {
 			before := mk("str.substr", SString, rest, IntC(0), idx)
 			start := intAdd(idx, IntC(1))
@@ -517,16 +567,72 @@ func init() {
 			line := Ite(cr, mk("str.substr", SString, before, IntC(0), intSub(strLenInt(before), IntC(1))), before)
 			return TupleV{ByteSlice{T: line}, False, IfaceV{}}
 		}
-		if m.branch("readline.short", intLT(strLenInt(rest), IntC(4096))) {
+		if m.branch("readline.short", intLT(strLenInt(rest), IntC(int64(size)))) {
 			rs.rest = StrC("")
 			return TupleV{ByteSlice{T: rest}, False, IfaceV{}}
 		}
-		panic(pathEnd{kind: "cut", msg: "bufio.ReadLine: line longer than the 4096-byte buffer (isPrefix case outside the stated bound)"})
+		return prefixChunk()
 	})
 	add("io.ReadAll", func(m *Machine, _ *Thread, _ *Frame, a []Value, _ ssa.Value) Value {
 		data, set := m.readerSource(a[0])
 		set(m.strLit(""))
 		return TupleV{ByteSlice{T: data}, IfaceV{}}
+	})
+	// bytes.Buffer: an appendable, consumable byte queue (zero value ready to use)
+	bufState := func(m *Machine, v Value) *readerState {
+		p, ok := v.(Ptr)
+		if !ok || p.O == nil {
+			panic(m.unsupported("bytes.Buffer handle is %T", v))
+		}
+		key := fmt.Sprintf("reader:%d:%v", p.O.ID, p.Path)
+		if st, ok := m.side[key]; ok {
+			return st.(*readerState)
+		}
+		rs := &readerState{rest: m.strLit(""), size: 4096}
+		m.side[key] = rs
+		return rs
+	}
+	add("(*bytes.Buffer).Write", func(m *Machine, _ *Thread, _ *Frame, a []Value, _ ssa.Value) Value {
+		rs := bufState(m, a[0])
+		t := m.termOf(a[1])
+		rs.rest = m.strConcat(rs.rest, t)
+		return TupleV{m.strLen(t), IfaceV{}}
+	})
+	add("(*bytes.Buffer).WriteString", func(m *Machine, _ *Thread, _ *Frame, a []Value, _ ssa.Value) Value {
+		rs := bufState(m, a[0])
+		rs.rest = m.strConcat(rs.rest, str(a[1]))
+		return TupleV{m.strLen(str(a[1])), IfaceV{}}
+	})
+	add("(*bytes.Buffer).Reset", func(m *Machine, _ *Thread, _ *Frame, a []Value, _ ssa.Value) Value {
+		bufState(m, a[0]).rest = m.strLit("")
+		return nil
+	})
+	add("(*bytes.Buffer).Bytes", func(m *Machine, _ *Thread, _ *Frame, a []Value, _ ssa.Value) Value {
+		return ByteSlice{T: bufState(m, a[0]).rest}
+	})
+	add("(*bytes.Buffer).String", func(m *Machine, _ *Thread, _ *Frame, a []Value, _ ssa.Value) Value {
+		return bufState(m, a[0]).rest
+	})
+	add("(*bytes.Buffer).Len", func(m *Machine, _ *Thread, _ *Frame, a []Value, _ ssa.Value) Value {
+		return m.strLen(bufState(m, a[0]).rest)
+	})
+	add("bytes.NewBuffer", func(m *Machine, _ *Thread, _ *Frame, a []Value, _ ssa.Value) Value {
+		return m.newReaderObj(m.termOf(a[0]), "bytes.Buffer")
+	})
+	add(rtPkg+".ReaderDrain", func(m *Machine, _ *Thread, _ *Frame, a []Value, _ ssa.Value) Value {
+		data, set := m.readerSource(a[0])
+		set(m.strLit(""))
+		return ByteSlice{T: data}
+	})
+	add("strings.ToLower", func(m *Machine, _ *Thread, _ *Frame, a []Value, _ ssa.Value) Value {
+		s := str(a[0])
+		if c, ok := m.litValue(s); ok {
+			return m.strLit(strings.ToLower(c))
+		}
+		// uninterpreted, idempotent; strings known to be lower case (log IDs) are fixed points
+		r := App("uf.toLower", s.S, s)
+		m.assume(Eq(App("uf.toLower", s.S, r), r))
+		return r
 	})
 	add("bytes.NewReader", func(m *Machine, _ *Thread, _ *Frame, a []Value, _ ssa.Value) Value {
 		return m.newReaderObj(m.termOf(a[0]), "bytes.Reader")
@@ -550,6 +656,10 @@ func init() {
 	})
 	add(rtPkg+".AssumeNoCRLF", func(m *Machine, _ *Thread, _ *Frame, a []Value, _ ssa.Value) Value {
 		m.markCharFree(m.needString(m.termOf(a[0]), "AssumeNoCRLF"), "\n\r")
+		return nil
+	})
+	add(rtPkg+".AssumeLen", func(m *Machine, _ *Thread, _ *Frame, a []Value, _ ssa.Value) Value {
+		m.setLen(m.needString(m.termOf(a[0]), "AssumeLen"), m.concInt("assumelen", a[1]))
 		return nil
 	})
 	add(rtPkg+".LenLE", func(m *Machine, _ *Thread, _ *Frame, a []Value, _ ssa.Value) Value {
